@@ -212,6 +212,10 @@ func c18Options(mask int) rapidproto.GeneratorOptions {
 }
 
 func runC18(ctx *Ctx) {
+	if os.Getenv("VERIF_CHILD") == "c18chain" {
+		chainChild()
+		return
+	}
 	types := c18Types(ctx)
 	n := ctx.N(50, 600)
 	idx := 0
@@ -261,6 +265,7 @@ func runC18(ctx *Ctx) {
 			})
 		}
 	}
+	runC18Chain(ctx)
 }
 
 // liveMsgs hands the drawn message from the generator half to the check half
@@ -341,6 +346,9 @@ func c18Walk(m protoreflect.Message, opts rapidproto.GeneratorOptions, mask, dep
 				return fmt.Errorf("%s: Any populated although no type URLs were configured", path)
 			}
 			return nil
+		}
+		if depth > 9 && url == "" && len(val) == 0 {
+			return nil // beyond the generator's nesting limit nothing is generated
 		}
 		ok := false
 		for _, u := range opts.AnyTypeURLs {
@@ -450,6 +458,9 @@ func c18Walk(m protoreflect.Message, opts rapidproto.GeneratorOptions, mask, dep
 // recorded (type, option set) on 300 fixed rapid example seeds, which
 // reproduces generator panics and systematic defects without rapid.Check.
 func replayC18(ctx *Ctx, c *Case) error {
+	if c.Sub == "anychain" {
+		return replayChain(c)
+	}
 	mask := c.argInt("opts")
 	opts := c18Options(mask)
 	var ty *c18Type
